@@ -38,6 +38,8 @@ def reuse_stage(tier_, key):
             cfgs.append(corpus.cfg(P, 5, 30))
             cfgs.append(corpus.cfg(P, 0, 0))
             cfgs.append(corpus.cfg(P, 20, 60, muts=corpus.MUTS, rate=0.5, ext=True, buf=True))
+            if P in (1, 4) or tier_ == "thorough":
+                cfgs.append(corpus.cfg(P, 1000, 2000))      # outputs of tens of KiB: buffers that grew in an earlier call
             if tier_ == "thorough":
                 cfgs.append(corpus.cfg(P))
                 cfgs.append(corpus.cfg(P, 10, 40, muts=corpus.MUTS, rate=1.0, unsafe=True))
@@ -98,6 +100,10 @@ def determinism_stage(tier_, key):
             J.seed_job(corpus.cfg(P, 150, 300, muts=corpus.MUTS, rate=0.5, ext=True, buf=True))
             J.bytes_job(corpus.cfg(P, 150, 300, muts=corpus.MUTS, rate=0.5, unsafe=True), blen=4000)
             J.seed_job(corpus.cfg(P))
+            if P >= 1:
+                # long programs: the memo grows beyond 256 entries (order-dependent choices among many keys)
+                J.seed_job(corpus.cfg(P, 4500, 6000))
+                if not q: J.bytes_job(corpus.cfg(P, 4500, 6000), blen=60000)
         spec = {"jobs": J.jobs, "threads": 16, "procs": 3 if q else 6}
         sf = os.path.join(d, "det_spec.json"); json.dump(spec, open(sf, "w"))
         of = os.path.join(d, "det.ndjson")
